@@ -134,7 +134,10 @@ def _strip_generics(d):
             depth -= 1
         elif depth == 0:
             out.append(ch)
-    return "".join(out)
+    r = "".join(out)
+    while "::::" in r:
+        r = r.replace("::::", "::")
+    return r
 
 
 def short(defpath):
